@@ -13,7 +13,7 @@ DIFF = the model does not reproduce the real output exactly.
 MON  = a law of C06 is false on the REAL output (names are stable):
   deposit_no_panic deposit_takes_at_most_offered deposit_rate_not_better deposit_reserves_per_share
   withdraw_no_panic withdraw_at_most_prorata withdraw_reserves_per_share last_share_gets_all
-  ranged_price_in_range
+  ranged_price_in_range ranged_create_takes_at_most_offered (the latter is monitored only, no theorem)
 -/
 -- DRIVER: prefix=pool ns=Comdex.Drv.Pool
 namespace Comdex.Drv.Pool
@@ -104,7 +104,13 @@ def handleCreate (seq : String) (args : List String) (rest : List String) : List
     let r := "\t".intercalate rest
     let d := diff seq s!"create {x} {y} {minP} {maxP} {initP}" m r
     let mons := match rest with
-      | ["ok", _, _, _, _, _, po, pv] => monPrice seq minP maxP po pv
+      | ["ok", rx, ry, _, _, _, po, pv] =>
+        (match parseInt? rx, parseInt? ry with
+         | some rx, some ry =>
+           mon seq "ranged_create_takes_at_most_offered"
+             (decide (TakesAtMostOffered (max x 0) rx ∧ TakesAtMostOffered (max y 0) ry))
+         | _, _ => [s!"BAD\t{seq}\tcreate reserves"]) ++
+        monPrice seq minP maxP po pv
       | _ => []
     d ++ mons
   | _ => [s!"BAD\t{seq}\tcreate args"]
